@@ -4,7 +4,8 @@ import Orb.GeoJSON
 /-!
   Driver for C02 (GeoJSON via JSON and BSON) and the GeoJSON share of C05 (`handleHostile`).
 
-  Tree tokens:  n | t | f | d <16hex> | i <decimal> | s x<hex> | a <n> tree* | o <n> (x<hex> tree)*
+  Tree tokens:  n | t | f | B | d <16hex> | i <decimal> | s x<hex> | a <n> tree* | o <n> (x<hex> tree)*
+                (B: a bson boolean with a payload byte other than 0 / 1 — `Json.bad`)
   Feature:      F <id: - | tree> <bbox: - | b n hex*> <gval> <props: - | o …>   (N = nil pointer)
   FC:           FC <bbox> <features: - | l n feature*> <extra: - | o …>
 -/
@@ -47,6 +48,7 @@ partial def json : P Json := fun ts =>
   | "n" :: ts => some (.null, ts)
   | "t" :: ts => some (.bool true, ts)
   | "f" :: ts => some (.bool false, ts)
+  | "B" :: ts => some (.bad, ts)
   | "d" :: ts => (bits ts).map fun (b, ts) => (.num b, ts)
   | "i" :: ts => (int ts).map fun (n, ts) => (.num (Float.ofInt n).toBits, ts)
   | "s" :: ts => (xstr ts).map fun (s, ts) => (.str s, ts)
@@ -77,6 +79,7 @@ partial def showJson : Json → String
   | .null => "n"
   | .bool true => "t"
   | .bool false => "f"
+  | .bad => "B"
   | .num b => "d " ++ showBits b
   | .str s => "s " ++ showX s
   | .arr l => l.foldl (fun acc j => acc ++ " " ++ showJson j) ("a " ++ toString l.length)
